@@ -39,6 +39,7 @@ CONSTANT Variant
   \* "queryescape" url.QueryEscape instead of url.PathEscape
   \* "substfirst"  substitution before path.Join
   \* "revprec"     base-path query wins over pattern query
+  \* "memoscheme"  the scheme chosen for the first request of a Runtime is remembered for all later ones
   \* "seqfixed"    the repair with sequential ReplaceAll instead of one pass (a value that
   \*               looks like a placeholder is substituted again, order-dependent)
 
@@ -256,6 +257,10 @@ PickScheme(rs, os) ==
   IF SelectScheme(rs) # "" THEN SelectScheme(rs)
   ELSE IF SelectScheme(os) # "" THEN SelectScheme(os)
   ELSE "http"
+
+\* A Runtime serves a history of operations; the scheme of the i-th request depends on that
+\* operation's own scheme list only (pickScheme keeps no state).
+CodeSchemeAt(rs, hist, i) == IF Variant = "memoscheme" THEN PickScheme(rs, hist[1]) ELSE PickScheme(rs, hist[i])
 
 ---------------------------------------------------------------------------
 (* The property C10, on the observed URL                                   *)
